@@ -153,8 +153,27 @@ slice argument) and for slices kept in a variable that closures append to; the s
 between a function and its closures, gives closure parameters the join of the arguments of their direct calls, and names
 the cell of a once-assigned captured pointer variable; `@world` counts as the unbounded gate; an untouched
 `new(big.Int)` is the constant zero; the private state fields are found by type/role when the name is gone
-(`core/load.go: fieldRoles`). After the fixes **all 89 patches of the corpus are silent** and 99 of the 100 seeded changes
-are still reported by their own property's check.
+(`core/load.go: fieldRoles`). After the fixes all 89 patches then in the corpus were silent and 99 of the 100 seeded
+changes were still reported by their own property's check.
+
+**Third benign round (48 refactorings aimed at the rules of rounds 2 and 3).** Twelve more sub-agents, areas chosen
+after the newest rules (how an account is drawn, the balance readers, the query filter, the reader of variable text, the
+error renderer, type inference, the checker's @world handling, the CLI, variable uses, save, hover, values), kept as
+`benign/r4-<area>-<n>.diff`; plus `benign/rename-2.diff` (private struct types renamed). First run: **18 of 48 raised a
+false alarm**. Fixed structurally again: the pending-draw scan accepts "add up, subtract once" and an early exit on an
+empty list; postings may be applied by nested helpers that are handed the posting's fields one by one; the save rules
+range over an evaluate/apply split (the balance may be a parameter of the helper that rewrites it, the amount's sign may
+be guaranteed by the helper that produced it) and accept "compute in a fresh number, then Set"; the exit obligation of
+the sign analysis is per path; tuple results carry per-component taint; the reader of variable text may be a table of
+functions; the return type of an origin builtin comes from its implementation's signature; the renderer's exceptions
+are keyed by role (reachable only from the exported method of Range that renders it) with a side condition on what a
+Repeat count is built from; the CLI rules follow phase helpers; the hover constructor may be a helper whose callers test
+Contains; nil facts follow forwarded parameters, constructor parameters and slices built by helpers; the typing table
+follows a required type passed through a helper parameter. Two of these fixes removed *coincidental* detections - the
+refactorings had been flagged, and two seeded changes (C05-6, C19-2/C19-5) caught, by imprecision rather than by the
+rule's stated reason; both seeded changes now have a rule of their own (C05.9 an amount handed to a function that
+rewrites it is not used afterwards; C19.7 a resolution is recorded on every path after the lookup hit). After the fixes
+**all 139 patches of the corpus are silent** and 138 of the 140 seeded changes are reported by their own property's check.
 
 What still recognises code by name (a rename there gives `undecided`, exit 1 - a false alarm I could not remove without
 giving up the rule): the struct types `programState`, `CheckResult`, `State` themselves (their private fields fall
